@@ -94,10 +94,14 @@ class RecConsumer(_InMemoryConsumer):
 
     async def pause(self):
         self.broker.log.add("pause", queue=self.queue_name)
+        if getattr(self.broker, "pause_round_trip", 0.0):
+            await asyncio.sleep(self.broker.pause_round_trip)       # a consumer whose pause is a round trip (RabbitMQ: basic.qos)
         return await super().pause()
 
     async def unpause(self):
         self.broker.log.add("unpause", queue=self.queue_name)
+        if getattr(self.broker, "pause_round_trip", 0.0):
+            await asyncio.sleep(self.broker.pause_round_trip)
         return await super().unpause()
 
 
